@@ -62,6 +62,21 @@ Qed.
 Lemma mem_false x l : mem x l = false <-> ~ In x l.
 Proof. rewrite <- mem_true. destruct (mem x l); split; congruence. Qed.
 
+(* multiset equalities by occurrence counting: every Permutation hypothesis and the goal become
+   equations between occurrence counts of an arbitrary element, solved by lia *)
+Ltac pcount :=
+  let z := fresh "z" in
+  apply (Permutation_count_occ Nat.eq_dec); intro z;
+  repeat match goal with
+         | H : Permutation _ _ |- _ =>
+             let H' := fresh "PC" in pose proof (proj1 (Permutation_count_occ Nat.eq_dec _ _) H z) as H'; clear H
+         end;
+  rewrite ?count_occ_app in *; cbn [count_occ] in *; rewrite ?count_occ_app in *; cbn [count_occ] in *;
+  repeat match goal with
+         | |- context [Nat.eq_dec ?a z] => destruct (Nat.eq_dec a z)
+         | H : context [Nat.eq_dec ?a z] |- _ => destruct (Nat.eq_dec a z)
+         end; lia.
+
 (* case split of  step s l = Some s'  into one goal per transition of the model *)
 Ltac break_match H :=
   repeat (match type of H with
